@@ -119,6 +119,9 @@ pub struct Ctx {
     pub traces_validated: usize,
     pub model_unsupported: usize,
     pub exhaustive: bool,
+    /// the same harness built with the engine's `sync` feature (second copies of the Object / Array /
+    /// Document trait definitions): every request is answered by it as well
+    pub sync_peer: Option<Driver>,
 }
 
 pub fn hash_str(s: &str) -> u64 {
@@ -154,6 +157,7 @@ impl Ctx {
             traces_validated: 0,
             model_unsupported: 0,
             exhaustive: false,
+            sync_peer: match std::env::var("TAUH_SYNC_BIN") { Ok(p) if !p.is_empty() => Driver::spawn_cmd(&p, &["serve"]).ok(), _ => None },
         }
     }
 
@@ -187,6 +191,16 @@ impl Ctx {
         if imp.starts_with("LOGDIFF") {
             let ex = Exchange { line: line.to_string(), imp: imp.clone(), model: String::new(), agree: false, supported: true };
             self.violation("oracle", &format!("the engine answers this request differently when a logging subscriber is installed: {}", trunc(&imp, 500)), &ex, line, true);
+        }
+        if let Some(peer) = self.sync_peer.as_mut() {
+            let other = peer.ask(line);
+            if other != imp && other != "DRIVER-DEAD" && !imp.starts_with("HANG") {
+                self.stat("sync-build-differs");
+                let ex = Exchange { line: line.to_string(), imp: imp.clone(), model: other.clone(), agree: false, supported: true };
+                self.violation("oracle", &format!("the build with the engine's `sync` feature answers this request differently: {}", first_diff(&imp, &other)), &ex, line, true);
+            } else {
+                self.stat("sync-build-agrees");
+            }
         }
         let mut model = self.drv.ask(line);
         if model == "DRIVER-DEAD" {
